@@ -112,6 +112,12 @@ class Report:
                            'rule_text': self.rules.get(o['rule'], '')}, f, indent=1)
             out_lines.append('VIOLATION property=%s replay=%s' % (self.pid, path))
             out_lines.append('  rule %s at %s [%s]: %s -- %s' % (o['rule'], o['fn'], o['site'], o['construct'], o['detail']))
+        dump = os.environ.get('VERIF_DUMP_OBS')
+        if dump:
+            # one line per obligation (rule, construct, ok): used by tools/rulecover.py to see which obligations a corpus exercises
+            with open(dump, 'a') as f:
+                for o in self.obligations:
+                    f.write(json.dumps([self.pid, o['rule'], o['construct'], o['ok']]) + '\n')
         n = len(self.obligations)
         discharged = sum(1 for o in self.obligations if o['ok'])
         samples = []
